@@ -220,7 +220,7 @@ def range_rules(facts, rep):
                 convfail = [(a_, v_) for a_, v_ in other if a_ == "discr(TryFrom::try_from(OffsetDateTime::year(dt)))" and v_ == 1]
                 other = [x_ for x_ in other if x_ not in convfail and not (x_[0] == "discr(TryFrom::try_from(OffsetDateTime::year(dt)))" and x_[1] == 0)]
                 good = good and outcome(p)[0] in ("Err", "ErrProp") and (bool(rej) or bool(convfail)) and not other and \
-                    all(re.search(r"OffsetDateTime::|ops::Try::branch$|FromResidual::from_residual$|TryFrom", e[1]) for e in p["effects"]) and \
+                    all(re.search(r"OffsetDateTime::|ops::Try::branch$|FromResidual::from_residual$|TryFrom|contains$|RangeInclusive", e[1]) for e in p["effects"]) and \
                     all(v in ("OffsetDateTime::year(dt)", "ok(TryFrom::try_from(OffsetDateTime::year(dt)))") and lo in (None, 1980) and hi in (None, 2107) for v, lo, hi in rej)
         ok &= rep.check(good, rule, "try_from-year-guard", where(t, t.span), "Ok iff 1980 <= dt.year() <= 2107, tested on the very value stored; other fields from the same dt",
                         "TryFrom<OffsetDateTime> guards %s but stores year = %s -- the guard must be on the stored calendar year (offset-local), or impossible years get in" % (
